@@ -276,7 +276,7 @@ func c26(args []string) error {
 		b, _ := json.Marshal(rows[j])
 		return string(a) < string(b)
 	})
-	budget := 450
+	budget := 400
 	if rep.Thorough() {
 		budget = 4000
 	}
@@ -432,6 +432,21 @@ func c26(args []string) error {
 			return err
 		}
 
+		// cherry-pick of the attack commit onto a harmless base: entries are INSERTED over whatever is planted
+		// (no preceding removal as in a forced checkout)
+		if t0, err := rawTree(st, []tjEntry{{Path: []string{"base.txt"}, Kind: "file"}}, 0); err == nil {
+			if c0, err := rawCommit(st, t0, "base"); err == nil {
+				_ = do("Checkout", func() error { return w.Checkout(&git.CheckoutOptions{Hash: c0, Force: true}) })
+				_ = do("CherryPick", func() error {
+					co, err := repo.CommitObject(c2)
+					if err != nil {
+						return err
+					}
+					sig := &object.Signature{Name: "A", Email: "a@b", When: time.Unix(1000000000, 0).UTC()}
+					return w.CherryPick(&git.CommitOptions{Author: sig, Committer: sig, AllowEmptyCommits: true}, git.TheirsMergeStrategy, co)
+				})
+			}
+		}
 		if !c1.IsZero() {
 			_ = do("Checkout", func() error { return w.Checkout(&git.CheckoutOptions{Hash: c1, Force: true}) })
 		}
